@@ -1,13 +1,14 @@
 import SqiModel.Ideal
 import SqiProofs.Ideal
 import SqiProofs.IdealCovol
+import SqiProofs.IdealPrim
 import SqiGen.Tables1
 import SqiGen.Tables3
 import SqiGen.Tables5
 /- C15 — left ideals and orders.  Property theorems only (+ non-vacuity examples). -/
 namespace SqiProps.C15
 open SqiModel.Quat SqiModel.Ideal SqiProofs.QuatAlg SqiProofs.QuatMat SqiProofs.Hnf SqiProofs.QuatLattice SqiProofs.Ideal
-open SqiProofs.IdealAlg SqiProofs.IdealFull SqiProofs.IdealCovol
+open SqiProofs.IdealAlg SqiProofs.IdealFull SqiProofs.IdealCovol SqiProofs.IdealPrim
 open scoped Pointwise
 
 /-! Notation: `H p = ℍ[ℚ, -1, 0, -p]` (Mathlib `QuaternionAlgebra`), `val p x : H p` the value of a
@@ -214,6 +215,55 @@ theorem create_from_primitive_norm_index (p : ℤ) (x : Elem) (N : ℤ) (O : Lat
       ((createFromPrimitive p x N O prev).norm : ℚ) ^ 2 * covol O :=
   createFromPrimitive_covol_direct p x N O prev nx q hO hx hdetO hord hxO hn hnx hq hc
 
+/-- **`create_from_primitive`: norm² = index for primitive generators (FULL).**  `O` certified by `isOrderCert` and
+    `gramOk` (HNF ring with 1, closed under conjugation, integral trace form with Gram determinant `p²`: every linked
+    order, see `linked_orders_certified`), `x ∈ O` with `quat_alg_is_primitive` true, `n = gcd(N(x), N) ≠ 0` prime to `p`.
+    Then `covol(I) = n²·covol(O)` for the returned ideal, `n` its stored norm.  (Proof: unimodularity of the trace form
+    at every `ℓ | n` gives `y ∈ O` with `N(x + N·y)/n` prime to `n`; then index arithmetic with `O·g ⊆ I ⊆ O`.)
+    Not covered: `p | gcd(N(x), N)` (never the case for the norms used by the scheme). -/
+theorem create_from_primitive_norm_index_primitive (p : ℤ) (x : Elem) (N : ℤ) (O : Lattice) (prev nx : ℤ)
+    (ho : isOrderCert p O = true) (hg : gramOk p O = true) (hx : x.denom ≠ 0)
+    (hxO : (latContains O x).1 = true) (hprim : isPrimitive O x = true)
+    (hn : nrm (val p x) = nx) (hn0 : Int.gcd nx N ≠ 0)
+    (hcop : ∀ ℓ : ℕ, ℓ.Prime → ℓ ∣ Int.gcd nx N → ¬ (ℓ : ℤ) ∣ p) :
+    covol (createFromPrimitive p x N O prev).lattice =
+      ((createFromPrimitive p x N O prev).norm : ℚ) ^ 2 * covol O :=
+  createFromPrimitive_covol_primitive p x N O prev nx ho hg hx hxO hprim hn hn0 hcop
+
+/-- **`make_primitive_then_create`** (full): for `0 ≠ x ∈ O` it is `create_from_primitive` on a *primitive* `y ∈ O` with
+    `x = content·y` and on `N / gcd(content, N)`. -/
+theorem make_primitive_then_create_full (p : ℤ) (x : Elem) (N : ℤ) (O : Lattice) (prev : ℤ)
+    (ho : isOrderCert p O = true) (hx : x.denom ≠ 0) (hxO : (latContains O x).1 = true)
+    (hc0 : (makePrimitive O x).2 ≠ 0) :
+    let y : Elem := ⟨O.denom, O.basis.eval (makePrimitive O x).1⟩
+    makePrimitiveThenCreate p x N O prev =
+      createFromPrimitive p y (Int.tdiv N (Int.gcd (makePrimitive O x).2 N)) O prev ∧
+    (latContains O y).1 = true ∧ isPrimitive O y = true ∧
+    val p x = ((makePrimitive O x).2 : ℤ) • val p y :=
+  makePrimitiveThenCreate_spec p x N O prev ho hx hxO hc0
+
+/-- **`make_primitive_then_create`: norm² = index** — composition with `create_from_primitive_norm_index_primitive`. -/
+theorem make_primitive_then_create_norm_index (p : ℤ) (x : Elem) (N : ℤ) (O : Lattice) (prev ny : ℤ)
+    (ho : isOrderCert p O = true) (hg : gramOk p O = true) (hx : x.denom ≠ 0) (hxO : (latContains O x).1 = true)
+    (hc0 : (makePrimitive O x).2 ≠ 0)
+    (hn : nrm (val p ⟨O.denom, O.basis.eval (makePrimitive O x).1⟩) = ny)
+    (hn0 : Int.gcd ny (Int.tdiv N (Int.gcd (makePrimitive O x).2 N)) ≠ 0)
+    (hcop : ∀ ℓ : ℕ, ℓ.Prime → ℓ ∣ Int.gcd ny (Int.tdiv N (Int.gcd (makePrimitive O x).2 N)) → ¬ (ℓ : ℤ) ∣ p) :
+    covol (makePrimitiveThenCreate p x N O prev).lattice =
+      ((makePrimitiveThenCreate p x N O prev).norm : ℚ) ^ 2 * covol O := by
+  obtain ⟨e, hyO, hyp, _⟩ := makePrimitiveThenCreate_spec p x N O prev ho hx hxO hc0
+  obtain ⟨hd, _, _, _⟩ := isOrderCert_sound p O ho
+  rw [e]
+  exact create_from_primitive_norm_index_primitive p _ _ O prev ny ho hg hd hyO hyp hn hn0 hcop
+
+/-- existence of a generator with cofactor prime to the norm (the classical lemma, here proved): under the hypotheses
+    of `create_from_primitive_norm_index_primitive` stated in the algebra -/
+theorem exists_generator_coprime_cofactor {p : ℤ} {O : Submodule ℤ (H p)} (hO : IsIntegralOrder O) (x : H p) (nx N : ℤ)
+    (hn : HasNorm x nx) (hn0 : Int.gcd nx N ≠ 0)
+    (hnd : ∀ ℓ : ℕ, ℓ.Prime → ℓ ∣ Int.gcd nx N → ∃ b ∈ O, ∃ m : ℤ, TracePair x b m ∧ ¬ ((ℓ : ℤ) ∣ m)) :
+    ∃ y ∈ O, ∃ q : ℤ, HasNorm (x + N • y) ((Int.gcd nx N : ℤ) * q) ∧ Int.gcd q (Int.gcd nx N : ℤ) = 1 :=
+  exists_generator hO x nx N hn hn0 hnd
+
 /-- **norm² = index, general case with a witness** (PARTIAL w.r.t. the full property: the full statement "for every
     primitive `x` of a maximal order" additionally needs that a generator with cofactor coprime to the norm *exists*;
     here its existence is witnessed by the success of the model's own `generator_coprime` search).  -/
@@ -284,6 +334,49 @@ theorem right_order_exact (p : ℤ) (I : LeftIdeal) (O' : Lattice)
     hLat p O' = transporter (hLat p I.lattice) (hLat p I.lattice) ∧ (1 : H p) ∈ hLat p O' ∧
     hLat p O' * hLat p O' ≤ hLat p O' :=
   isRightOrderExact_sound p I O' hI hinv h
+
+/-- **invertibility of constructed ideals**: for `I = create_from_primitive(x, N)` with `x` primitive in a certified order
+    and `gcd(N(x), N) ≠ 0` prime to `p`: `N(I) ∈ Ī·I`. -/
+theorem create_from_primitive_invertible (p : ℤ) (x : Elem) (N : ℤ) (O : Lattice) (prev nx : ℤ)
+    (ho : isOrderCert p O = true) (hg : gramOk p O = true) (hx : x.denom ≠ 0)
+    (hxO : (latContains O x).1 = true) (hprim : isPrimitive O x = true)
+    (hn : nrm (val p x) = nx) (hn0 : Int.gcd nx N ≠ 0)
+    (hcop : ∀ ℓ : ℕ, ℓ.Prime → ℓ ∣ Int.gcd nx N → ¬ (ℓ : ℤ) ∣ p) :
+    (((createFromPrimitive p x N O prev).norm : ℤ) : H p) ∈
+      conjS (hLat p (createFromPrimitive p x N O prev).lattice) * hLat p (createFromPrimitive p x N O prev).lattice :=
+  createFromPrimitive_norm_mem_conj_mul p x N O prev nx ho hg hx hxO hprim hn hn0 hcop
+
+/-- **right order of a constructed ideal** (composition of the above): for `I = create_from_primitive(x, N)` as in
+    `create_from_primitive_invertible`, a lattice accepted by the exact certificate is *the* right order of `I`. -/
+theorem right_order_of_constructed_ideal (p : ℤ) (x : Elem) (N : ℤ) (O O' : Lattice) (prev nx : ℤ)
+    (ho : isOrderCert p O = true) (hg : gramOk p O = true) (hx : x.denom ≠ 0)
+    (hxO : (latContains O x).1 = true) (hprim : isPrimitive O x = true)
+    (hn : nrm (val p x) = nx) (hn0 : Int.gcd nx N ≠ 0)
+    (hcop : ∀ ℓ : ℕ, ℓ.Prime → ℓ ∣ Int.gcd nx N → ¬ (ℓ : ℤ) ∣ p)
+    (h : isRightOrderExact p (createFromPrimitive p x N O prev) O' = true) :
+    hLat p O' = transporter (hLat p (createFromPrimitive p x N O prev).lattice)
+      (hLat p (createFromPrimitive p x N O prev).lattice) := by
+  obtain ⟨hd, hnO, _, _⟩ := isOrderCert_sound p O ho
+  have hxmem : val p x ∈ hLat p O := (latContains_iff_val p O x hd hx hnO).1 hxO
+  have e : (createFromPrimitive p x N O prev).order = O := rfl
+  have h1 : IsLeftIdealOfNorm (hLat p (createFromPrimitive p x N O prev).order)
+      (hLat p (createFromPrimitive p x N O prev).lattice) (createFromPrimitive p x N O prev).norm := by
+    rw [e]
+    exact create_from_primitive_is_ideal_of_norm p x N O prev nx hd hx (isOrder_of_cert p O ho) hxmem hn
+  exact (right_order_exact p (createFromPrimitive p x N O prev) O' h1
+    (create_from_primitive_invertible p x N O prev nx ho hg hx hxO hprim hn hn0 hcop) h).1
+
+/-- **`quat_connecting_ideal` returns `N·O₁·O₂`**, `N = quat_lattice_index(O₁ ∩ O₂, O₁)`; for rings with 1 it satisfies the
+    defining inclusions of a connecting ideal: `O₁·I ⊆ I` and `I·O₂ ⊆ I`. -/
+theorem connecting_ideal_spec (p : ℤ) (O1 O2 : Lattice) (prev : ℤ) (h1 : O1.denom ≠ 0) (h2 : O2.denom ≠ 0)
+    (hone : (1 : H p) ∈ hLat p O2) :
+    let N := latIndex (latIntersect O1 O2) O1
+    hLat p (connectingIdeal p O1 O2 prev).lattice = nsmul' N (hLat p O1 * hLat p O2) ∧
+    (hLat p O1 * hLat p O1 ≤ hLat p O1 →
+      hLat p O1 * hLat p (connectingIdeal p O1 O2 prev).lattice ≤ hLat p (connectingIdeal p O1 O2 prev).lattice) ∧
+    (hLat p O2 * hLat p O2 ≤ hLat p O2 →
+      hLat p (connectingIdeal p O1 O2 prev).lattice * hLat p O2 ≤ hLat p (connectingIdeal p O1 O2 prev).lattice) :=
+  connectingIdeal_spec p O1 O2 prev h1 h2 hone
 
 /-- the invertibility hypothesis `N(I) ∈ Ī·I` follows from a successful generator search -/
 theorem norm_mem_conj_mul_of_generator_found (p : ℤ) (I : LeftIdeal) (n bound : ℤ) (g : Elem)
@@ -430,8 +523,8 @@ theorem maxOrderOk_isOrder (p : ℤ) (t : ℤ × List (List ℤ)) (h : maxOrderO
   split at h
   · rename_i O hO
     simp only [Bool.and_eq_true] at h
-    obtain ⟨d, n, _, _⟩ := isOrderCert_sound p O h.1
-    exact ⟨O, hO, isOrder_of_cert p O h.1, d, det_ne_zero_of_isHNF _ n⟩
+    obtain ⟨d, n, _, _⟩ := isOrderCert_sound p O h.1.1
+    exact ⟨O, hO, isOrder_of_cert p O h.1.1, d, det_ne_zero_of_isHNF _ n⟩
   · simp at h
 
 theorem extremalOk_maxOrderOk (p : ℤ) (e : (ℤ × List (List ℤ)) × (ℤ × List ℤ) × (ℤ × List ℤ) × ℤ)
@@ -440,6 +533,53 @@ theorem extremalOk_maxOrderOk (p : ℤ) (e : (ℤ × List (List ℤ)) × (ℤ ×
   split at h
   · simp only [Bool.and_eq_true] at h; exact h.1.1.1.1
   · simp at h
+
+/-- an accepted maximal-order entry satisfies both order certificates used by the full theorems -/
+theorem maxOrderOk_certified (p : ℤ) (t : ℤ × List (List ℤ)) (h : maxOrderOk p t = true) :
+    ∃ O : Lattice, latOfTable t = some O ∧ isOrderCert p O = true ∧ gramOk p O = true := by
+  unfold maxOrderOk at h
+  split at h
+  · rename_i O hO
+    simp only [Bool.and_eq_true] at h
+    exact ⟨O, hO, h.1.1, h.2⟩
+  · simp at h
+
+/-- every linked order of the three levels is certified (`isOrderCert` ∧ `gramOk`) -/
+theorem linked_orders_certified :
+    (∀ t ∈ SqiGen.L1.W64.MAXORD_O0 :: (SqiGen.L1.W64.STANDARD_EXTREMAL_ORDER :: SqiGen.L1.W64.ALTERNATE_EXTREMAL_ORDERS).map (·.1),
+      ∃ O, latOfTable t = some O ∧ isOrderCert SqiGen.L1.W64.QUATALG_PINFTY_p O = true ∧ gramOk SqiGen.L1.W64.QUATALG_PINFTY_p O = true) ∧
+    (∀ t ∈ SqiGen.L3.W64.MAXORD_O0 :: (SqiGen.L3.W64.STANDARD_EXTREMAL_ORDER :: SqiGen.L3.W64.ALTERNATE_EXTREMAL_ORDERS).map (·.1),
+      ∃ O, latOfTable t = some O ∧ isOrderCert SqiGen.L3.W64.QUATALG_PINFTY_p O = true ∧ gramOk SqiGen.L3.W64.QUATALG_PINFTY_p O = true) ∧
+    (∀ t ∈ SqiGen.L5.W64.MAXORD_O0 :: (SqiGen.L5.W64.STANDARD_EXTREMAL_ORDER :: SqiGen.L5.W64.ALTERNATE_EXTREMAL_ORDERS).map (·.1),
+      ∃ O, latOfTable t = some O ∧ isOrderCert SqiGen.L5.W64.QUATALG_PINFTY_p O = true ∧ gramOk SqiGen.L5.W64.QUATALG_PINFTY_p O = true) := by
+  refine ⟨?_, ?_, ?_⟩
+  · intro t ht
+    apply maxOrderOk_certified
+    rcases List.mem_cons.1 ht with rfl | ht
+    · exact L1_maxord_O0_ok
+    · obtain ⟨e, he, rfl⟩ := List.mem_map.1 ht
+      apply extremalOk_maxOrderOk
+      rcases List.mem_cons.1 he with rfl | he
+      · exact L1_standard_extremal_ok.1
+      · exact List.all_eq_true.1 L1_alternate_extremal_ok.2 e he
+  · intro t ht
+    apply maxOrderOk_certified
+    rcases List.mem_cons.1 ht with rfl | ht
+    · exact L3_maxord_O0_ok
+    · obtain ⟨e, he, rfl⟩ := List.mem_map.1 ht
+      apply extremalOk_maxOrderOk
+      rcases List.mem_cons.1 he with rfl | he
+      · exact L3_standard_extremal_ok.1
+      · exact List.all_eq_true.1 L3_alternate_extremal_ok.2 e he
+  · intro t ht
+    apply maxOrderOk_certified
+    rcases List.mem_cons.1 ht with rfl | ht
+    · exact L5_maxord_O0_ok
+    · obtain ⟨e, he, rfl⟩ := List.mem_map.1 ht
+      apply extremalOk_maxOrderOk
+      rcases List.mem_cons.1 he with rfl | he
+      · exact L5_standard_extremal_ok.1
+      · exact List.all_eq_true.1 L5_alternate_extremal_ok.2 e he
 
 /-- all linked orders (MAXORD_O0, STANDARD, the 7 alternates; three levels) are orders: rings with 1 closed under
     conjugation, of full rank — the hypotheses `IsOrder`, `denom ≠ 0`, `det ≠ 0` of the full theorems hold for them -/
@@ -547,6 +687,17 @@ example : ∀ J, lidealMul 7 I1 alpha = some J → hLat 7 J.lattice = hLat 7 I1.
     ((latContains_iff_val 7 O0 alpha O0_hnf.1 (by decide) O0_hnf.2).1 (by decide +kernel))
     (by simp [nrm_eq, val, alpha]; norm_num) hJ).1
 example : (lidealMul 7 I1 alpha).isSome = true := by decide +kernel
+/-- the deep case by the FULL theorem: x = 1+i+j is primitive in O₀, N(x) = 9, N = 3, n = 3 (cofactor 3 not prime to 3) -/
+example : covol I1.lattice = (I1.norm : ℚ) ^ 2 * covol O0 :=
+  create_from_primitive_norm_index_primitive 7 x 3 O0 0 9 (by decide +kernel) (by decide +kernel) (by decide)
+    (by decide +kernel) (by decide +kernel) x_nrm (by decide) (by
+      intro ℓ hℓ hd h
+      have e : Int.gcd 9 3 = 3 := by decide
+      have h3 : ℓ ∣ 3 := by rwa [e] at hd
+      have h7 : ℓ ∣ 7 := Int.natCast_dvd_natCast.1 h
+      have : ℓ ∣ Nat.gcd 3 7 := Nat.dvd_gcd h3 h7
+      have : ℓ = 1 := by simpa using this
+      exact hℓ.one_lt.ne' this)
 /-- the C outputs for right order / right transporter pass the *exact* certificates, hence are the transporter -/
 example : hLat 7 T12 = transporter (hLat 7 I1.lattice) (hLat 7 I2.lattice) := by
   have hI2 : IsLeftIdealOfNorm (hLat 7 O0) (hLat 7 I2.lattice) I2.norm :=
